@@ -256,6 +256,11 @@ func dischargeAll(units []*Unit, timeoutS int, seed int, workDir string) {
 			defer wg.Done()
 			for j := range ch {
 				o := j.o
+				if o.Kind == "structural" && o.Goal == "true" {
+					o.Result = "discharged"
+					o.Solver = "structural"
+					continue
+				}
 				if o.Goal == "false" && !o.ExpectSat && o.Kind == "contract-binding" {
 					o.Result = "failed"
 					o.Solver = "none"
